@@ -287,10 +287,14 @@ impl<'buf, IO: Io> Connection<'_, 'buf, IO> {
         if !self.live {
             return Err(Error::Disconnected.into());
         }
-        if let Err(err) = write_all(&mut self.io, packet).await {
-            if matches!(err, Error::WriteZero) {
-                return Err(err.into());
-            }
+        let outcome = match self.io.write(packet).await {
+            // Nothing of the packet is on the wire yet: the stream is whole and the handle stays usable.
+            Ok(0) => return Err(Error::WriteZero.into()),
+            // From here on any failure, a zero-length write included, leaves a torn packet behind.
+            Ok(written) => write_all(&mut self.io, &packet[written..]).await,
+            Err(err) => Err(Error::Transport(err)),
+        };
+        if let Err(err) = outcome {
             warn!("QoS0 PUBLISH write failed");
             self.handle_disconnect();
             return Err(err.into());
